@@ -120,58 +120,7 @@ def _inc_of_local(e, l):
     return None
 
 
-def cursor_events(ctx, R, b):
-    """Per feasible path: list of events ("P", outcome) inner poll, ("ADV",) cursor advanced/wrapped, ("REM",) group
-    removed, ("RET", kind)."""
-    fl = ctx.flow(b)
-    inner = [(bb, t) for bb, t, fn in b.calls() if fn and not b.is_cleanup(bb)
-             and re.search(RE_STREAM_POLL_NEXT, fn["def"]) and callee_body(ctx.facts, fn) is not None]
-    if len(inner) != 1:
-        return None
-    ibb, it = inner[0]
-    recv = strip_refs(fl.operand_expr(it["args"][0]))
-    cur_field = None
-    if recv[0] == "call" and "index_mut" in (recv[1] or ""):
-        cur = recv[2][1]
-        if cur[0] == "proj" and cur[2][-1].startswith("."):
-            cur_field = cur[2][-1]
-    if cur_field is None:
-        return None
-    adv_blocks = {}
-    for (bb, i, s) in fl.stores:
-        if i == "term" or b.is_cleanup(bb):
-            continue
-        pe = fl.place_expr(s["place"])
-        if pe[0] == "proj" and pe[2][-1] == cur_field:
-            v = fl.rvalue_expr(s["rv"], bb)
-            k = is_inc_of(v, cur_field)
-            if (k is not None and k >= 1) or (v[0] == "const" and v[2] == "0"):
-                adv_blocks[bb] = "inc" if k else "wrap"
-    rem_blocks = {bb for bb, t, fn in direct_sites(b, r"alloc::vec::Vec::<.*>::(remove|swap_remove)$")}
-    dest = place_str(it["dest"])
-    out = []
-    from adapters import classify_poll
-    for kind, path, know in sensitive_paths(b, fl, 3):
-        if kind != "return":
-            continue
-        ev = []
-        n = len(path)
-        for i, bb in enumerate(path):
-            if bb == ibb:
-                e = n
-                for j in range(i + 1, n):
-                    if path[j] == ibb:
-                        e = j
-                        break
-                ev.append(("P", classify_poll(dest, know[e - 1]) if e - 1 > i else None, i))
-            if bb in adv_blocks and i > 0:
-                # the wrap store at the loop head (before the poll of this iteration) is not an advance after a poll
-                ev.append(("ADV", adv_blocks[bb], i))
-            if bb in rem_blocks:
-                ev.append(("REM", None, i))
-        ev.append(("RET", None, n))
-        out.append((path, ev))
-    return cur_field, out
+from groups import cursor_events
 
 
 def r13_2(ctx, R):
